@@ -45,7 +45,7 @@ Definition write_run := write_run_gen true.
 Definition write_run_old := write_run_gen false.
 
 (* the tables WriteRun returns *)
-Definition write_run_tables (es : list entry) (target : N) : list table := map write_table (write_run es target).
+Definition write_run_tables (tp : tparams) (es : list entry) (target : N) : list table := map (write_table tp) (write_run es target).
 
 (* ---------- reading the split run back as a sorted level (LevelList over {}, run) ----------
    LevelList.ScanPrefixEntries selects the tables of a level >= 1 with slices.BinarySearchFunc / RangePrefixCompare and
